@@ -27,7 +27,7 @@ ASSUMPTIONS = [
 ]
 MIN = {
     "quick": {"lowq_ignored_major": 200, "lowq_ignored_minor": 150, "called_core_supported": 300,
-              "carried_supported": 300, "unsupported_allele_not_called": 60},
+              "carried_supported": 300, "unsupported_allele_not_called": 60, "lowq_reads_ignored": 15},
     "thorough": {"lowq_ignored_major": 6000, "lowq_ignored_minor": 5000, "called_core_supported": 10000,
                  "carried_supported": 10000, "unsupported_allele_not_called": 2000},
 }
@@ -37,7 +37,88 @@ GENES = ["toy", "toy", "gen", "gen", "gen", "cyp2c19", "tpmt", "nudt15", "cyp2a6
 
 def plan(tier, seed):
     n = 160 if tier == "quick" else 3000
-    return [{"seed": seed, "batch": b, "n": 6} for b in range(n)]
+    cases = [{"seed": seed, "batch": b, "n": 6} for b in range(n)]
+    for k in range(24 if tier == "quick" else 500):
+        cases.append({"kind": "reads", "seed": seed, "k": k})
+    return cases
+
+
+def _reads_case(res, case):
+    """Read level: a simulated sample with and without additional reads below the quality thresholds
+    (taken from a different genotype), genotyped with a user-supplied structure."""
+    import os
+
+    import aldy.sam
+    from ..gen import reads
+    from . import _sim
+
+    rng = util.rng_for("c15r", case["seed"], case["k"])
+    genome = rng.choice(["hg19", "hg38"])
+    db = _sim.gen_db(rng.randrange(30), genome, want_cn=True)
+    g = db.gene
+    copies = _sim.random_genotype(db, rng, n=2, allow_structural=False)
+    other = _sim.random_genotype(db, rng, n=2, allow_structural=False)
+    minq, minmq = rng.choice([10, 20]), rng.choice([10, 20, 30])
+    rds = reads.simulate(g, reads.haplotypes_for(g, copies), rl=100, depth=20, ref=db.ref, neutral=None, rng=rng)
+    lq = reads.simulate(g, reads.haplotypes_for(g, other), rl=100, depth=rng.choice([4, 10]), ref=db.ref,
+                        neutral=None, rng=rng, name_prefix="lq")
+    for r in lq:
+        if rng.random() < 0.5:
+            r["qual"] = [rng.choice([q for q in (2, 5, 9, 15) if q < minq]) for _ in r["seq"]]
+        else:
+            r["mapq"] = rng.choice([m for m in (0, 3, 9, 15, 25) if m < minmq])
+    d = util.scratch_dir()
+    b1 = reads.write_bam(os.path.join(d, "q_a.bam"), g.chr, db.contig_len, rds)
+    b2 = reads.write_bam(os.path.join(d, "q_b.bam"), g.chr, db.contig_len, rds + lq)
+    cn = sorted(tables.cn_list(g, copies))
+    desc = {"db": db.label, "copies": [list(c[:2]) for c in copies], "lowq_reads_from": [list(c[:2]) for c in other],
+            "min_quality": minq, "min_mapq": minmq, "lowq_reads": len(lq)}
+    samples = []
+    orig_mc = aldy.sam.Sample._make_coverage
+
+    def mc(self, norm, muts):
+        samples.append(self)
+        return orig_mc(self, norm, muts)
+
+    def run(bam, phase):
+        del samples[:]
+        aldy.sam.Sample._make_coverage = mc
+        try:
+            with util.time_limit(60):
+                out = _sim.genotype(db, bam, None, None, cn_solution=cn, phase=phase, min_quality=minq, min_mapq=minmq)
+        finally:
+            aldy.sam.Sample._make_coverage = orig_mc
+        sols = list(out.values())[0]
+        sig = sorted((tuple(sorted((a.major, a.minor, tuple(sorted(map(str, a.added))), tuple(sorted(map(str, a.missing))))
+                                   for a in s.solution)), round(s.score, 6)) for s in sols)
+        indel = {k: tuple(v) for k, v in samples[-1]._indel_sites.items()} if samples else {}
+        return sig, indel
+
+    try:
+        phase = rng.random() < 0.5
+        s1, i1 = run(b1, phase)
+        s2, i2 = run(b2, phase)
+        mech = None
+        if s1 != s2:
+            if i1 != i2:
+                mech = "indel-support-counts-lowq-reads"  # the realigner's support table itself moved
+            elif phase:
+                t1, _ = run(b1, False)
+                t2, _ = run(b2, False)
+                if t1 == t2:
+                    mech = "phase-records-ignore-quality"
+        res.check("lowq_reads_ignored", s1 == s2,
+                  "adding reads below a quality threshold changed the solutions or scores",
+                  mech=mech, phase=phase, without=str(s1)[:300], with_lowq=str(s2)[:300],
+                  indel_support_changed=[f"{k}: {i1.get(k)} -> {i2.get(k)}" for k in i2 if i1.get(k) != i2.get(k)][:4],
+                  **desc)
+    except util.Slow:
+        res.count("skipped_slow")
+        return None
+    except Exception as e:
+        res.count("reads_case_failed")
+        return None
+    return desc
 
 
 def sig_major(sols):
@@ -202,6 +283,13 @@ def run(case):
     util.import_aldy()
     res = Res()
     fps = []
+    if case.get("kind") == "reads":
+        d = _reads_case(res, case)
+        res.fp = util.fingerprint([case, d])
+        res.nontrivial = d is not None
+        if d and case["k"] < 2:
+            res.sample = d
+        return res
     for k in range(case["n"]):
         rng = util.rng_for("c15", case["seed"], case["batch"], k)
         d = _case(res, rng, [case["seed"], case["batch"], k])
